@@ -426,6 +426,136 @@ def gate_in(ast, path, stmts, notfinished):
     return None
 
 
+class Exhausted(Exception):
+    pass
+
+
+class GateInterp(Interp):
+    """Evaluates the statements that follow one execution of a loop body, with the budget known only as
+    zero / positive, to decide: (zero) the run returns 'not finished'; (positive) the budget is decreased by one
+    and execution goes on.  Calls of local helper functions are followed; everything that does not touch the
+    budget is opaque."""
+
+    def __init__(self, ast, path, budget_zero, limited_name):
+        super().__init__()
+        self.ast, self.path, self.zero, self.limited_name = ast, path, budget_zero, limited_name
+        self.decs = 0
+        self.fns = pm.local_fns(ast, path)
+        self.depth = 0
+
+    def eval(self, e, env):
+        t = e.get("t")
+        if t == "PathExpr":
+            n = e["path"]["name"]
+            if n == self.limited_name:
+                return True
+            if len(e["path"]["segs"]) == 1 and env.has(n):
+                return env.get(n)
+            return ("opaque", n)
+        if t == "Field":
+            if e["member"] == "budget":
+                return ("budget",)
+            return ("opaque", "field")
+        if t == "Binary" and e["op"] in ("-=", "+=") and is_budget(e["left"]):
+            k = int_lit(e["right"])
+            if e["op"] == "-=" and k == 1:
+                if self.zero:
+                    raise Exhausted()
+                self.decs += 1
+                return UNIT
+            raise Unanalysable(f"budget changed by `{e['op']} {k}`")
+        if t == "Assign" and is_budget(e["left"]):
+            raise Unanalysable("budget assigned")
+        if t == "MacroExpr":
+            return ("opaque", "macro")
+        return super().eval(e, env)
+
+    def equal(self, a, b, node):
+        if a == ("budget",) and b == 0:
+            return self.zero
+        if b == ("budget",) and a == 0:
+            return self.zero
+        return super().equal(a, b, node)
+
+    def binary(self, op, l, r, node):
+        if op in ("==", "!=") and (("budget",) in (l, r)) and (0 in (l, r)):
+            return self.zero if op == "==" else not self.zero
+        if l == ("budget",) and r == 0 and op in (">", "<=", "<", ">="):
+            return {">": not self.zero, "<=": self.zero, "<": False, ">=": True}[op]
+        if isinstance(l, tuple) or isinstance(r, tuple):
+            return ("opaque", "bin")
+        return super().binary(op, l, r, node)
+
+    def unary(self, op, v, node):
+        if op == "!" and isinstance(v, bool):
+            return not v
+        if isinstance(v, tuple):
+            return v
+        return super().unary(op, v, node)
+
+    def call(self, name, targs, args, node):
+        base = name.split("::")[-1]
+        if base in self.fns and self.depth < 3 and name.count("::") <= 1:
+            fn = self.fns[base]
+            # only follow helpers that mention the budget
+            if any(n.get("t") == "Field" and n.get("member") == "budget" for n in walk(fn["body"])):
+                env = Env()
+                ps = [p_ for p_ in fn["sig"]["inputs"] if p_["t"] == "Arg"]
+                for p_, a_ in zip(ps, args):
+                    if p_["pat"]["t"] == "PIdent":
+                        env.bind(p_["pat"]["name"], a_)
+                self.depth += 1
+                try:
+                    return self.exec_block(fn["body"], env)
+                except ReturnEx as r:
+                    return r.value
+                finally:
+                    self.depth -= 1
+        return ("opaque", name)
+
+    def method(self, recv, name, targs, args, node):
+        return ("opaque", name)
+
+    def struct_expr(self, name, fields, node):
+        return ("opaque", name)
+
+    def cast(self, v, ty, node):
+        return v
+
+    def field(self, base, member, node):
+        return ("opaque", member)
+
+    def macro(self, name, mac, env, node):
+        return ("opaque", name)
+
+
+def gate_semantics(ast, path, stmts, env_names, limited_name, notfinished):
+    """-> (ok, message).  `stmts`: what runs after the loop body / nested block, up to the back edge."""
+    out = {}
+    for zero in (True, False):
+        it = GateInterp(ast, path, zero, limited_name)
+        env = Env()
+        for n in env_names:
+            env.bind(n, ("opaque", n))
+        try:
+            it.exec_block({"t": "Block", "stmts": stmts, "sp": [0, 0, 0, 0]}, env)
+            out[zero] = ("falls-through", it.decs)
+        except ReturnEx as r:
+            out[zero] = ("returns", r.value, it.decs)
+        except Exhausted:
+            out[zero] = ("underflow",)
+        except (Unanalysable, Reached, BreakEx, ContinueEx) as u:
+            return False, f"cannot be analysed (fail closed): {u}"
+    z, p_ = out[True], out[False]
+    if z[0] != "returns":
+        return False, "with an exhausted budget the run does not return here" + (" (the budget would underflow)" if z[0] == "underflow" else "")
+    if not notfinished(z[1]):
+        return False, f"with an exhausted budget the run returns {z[1]!r}, not 'not finished'"
+    if p_[0] != "falls-through" or p_[1] != 1:
+        return False, f"with budget left the gate must charge exactly one unit and continue; it {p_[0]} after {p_[-1]} charge(s)"
+    return True, ""
+
+
 def limited_block(e, names=("LIMITED", "limited")):
     e = strip_paren(e)
     return e["t"] == "If" and e["else"] is None and path_name(strip_paren(e["cond"])) in names
@@ -452,17 +582,24 @@ def run_lim(res, ast, with_jit=True):
             raise Missing("in-place interpreter: arm b']'")
         st = strip_paren(arm["body"])["block"]["stmts"]
         w = where(INPLACE, arm, "execute_in")
-        okg = False
-        if st and st[0]["t"] == "ExprStmt" and limited_block(st[0]["expr"]):
-            gi = gate_in(ast, INPLACE, st[0]["expr"]["then"]["stmts"], "Ok(false)")
-            okg = gi == 0 and len(st[0]["expr"]["then"]["stmts"]) == 2
-        res.check(okg, "LIM-BACKEDGE", f"{INPLACE}|execute_in|]-gate", w,
-                  "the `]` arm must start with `if LIMITED { if cxt.budget == 0 { return Ok(false); } cxt.budget -= 1; }` before the jump back")
         pcs = [pm.match_expr(l["cond"], "__v_pc < __v_bytes.len()") for l in walk_t(f["node"]["body"], "While")]
         pcs = [b_["__v_pc"] for b_ in pcs if b_]
         pcn = pcs[0] if pcs else "pc"
+        gens = [g["name"] for g in f["node"]["sig"]["generics"]["params"] if g["t"] == "ConstParam"]
+        limn = gens[0] if gens else "LIMITED"
+        # statements of the arm up to (excluding) the first one that can jump back
+        cut = len(st)
+        for i_, s_ in enumerate(st):
+            if any(path_name(a_["left"]) == pcn for a_ in walk_t(s_, "Assign")):
+                cut = i_
+                break
+        # the loop-stack pop and its error are not part of the gate: keep only statements that mention the budget or LIMITED
+        pre = [s_ for s_ in st[:cut] if any((n.get("t") == "Field" and n.get("member") == "budget") or (n.get("t") == "PathExpr" and n["path"]["name"] == limn)
+                                            or (n.get("t") == "Call") for n in walk(s_)) and not any(n.get("t") == "Closure" for n in walk(s_))]
+        okg, why = gate_semantics(ast, INPLACE, pre, ["cxt", "self", "loop_stack", pcn], limn, lambda v: isinstance(v, Res) and v.ok and v.v is False)
+        res.check(okg, "LIM-BACKEDGE", f"{INPLACE}|execute_in|]-gate", w, "the `]` arm, before it can jump back: " + why)
         jumps = [a for a in walk_t(arm["body"], "Assign") if path_name(a["left"]) == pcn]
-        res.check(len(jumps) >= 1 and all(j["sp"][0] > st[0]["sp"][2] for j in jumps) if st else False, "LIM-BACKEDGE",
+        res.check(len(jumps) >= 1 and cut < len(st), "LIM-BACKEDGE",
                   f"{INPLACE}|execute_in|]-order", w, "the jump back (`pc = target`) must come after the budget gate")
         # no other backward assignment of pc
         back = []
@@ -499,15 +636,16 @@ def run_lim(res, ast, with_jit=True):
                 continue
             inner = (ctl[0]["body"] if kind == "While" else ctl[0]["then"])["stmts"]
             rec = [i for i, s in enumerate(inner) if any(path_name(strip_paren(c["func"])) == "execute_block" for c in walk_t(s, "Call"))]
-            lim = [i for i, s in enumerate(inner) if s["t"] == "ExprStmt" and limited_block(s["expr"])]
-            good = len(rec) == 1 and len(lim) == 1 and lim[0] > rec[0]
-            if good:
-                ls = inner[lim[0]]["expr"]["then"]["stmts"]
-                good = gate_in(ast, IRINT, ls, "Some(false)") == 0 and len(ls) == 2
+            gens = [g["name"] for g in f["node"]["sig"]["generics"]["params"] if g["t"] == "ConstParam"]
+            limn = gens[0] if gens else "LIMITED"
+            if len(rec) != 1:
+                res.bad("LIM-BACKEDGE", key, w, f"{vn}: expected exactly one nested execute_block call in the {kind.lower()} body")
+                continue
+            after = inner[rec[0] + 1:]
+            ps_ = [p_["pat"]["name"] for p_ in f["node"]["sig"]["inputs"] if p_["t"] == "Arg" and p_["pat"]["t"] == "PIdent"]
+            good, why = gate_semantics(ast, IRINT, after, ps_ + ["block", "cond"], limn, lambda v: isinstance(v, Opt) and v.some and v.v is False)
             res.check(good, "LIM-BACKEDGE", key, w,
-                      f"{vn}: the nested block must be followed, inside the {kind.lower()} body, by "
-                      "`if LIMITED { if cxt.budget == 0 { return Some(false); } cxt.budget -= 1; }` "
-                      "(it also carries the abort of a nested loop outwards)")
+                      f"{vn}: after the nested block (it also carries the abort of a nested loop outwards): " + why)
     except Missing as m:
         res.missing("LIM-BACKEDGE", m)
     # ---- bytecode interpreter (structural patterns, independent of local names)
@@ -621,24 +759,75 @@ def run_lim(res, ast, with_jit=True):
     files = [INPLACE, IRINT, BCMOD, OPS]
     allowed_fns = {(OPS, "limit")}
     n = 0
+
+    def under_gate(node, par):
+        cur = node
+        while id(cur) in par:
+            pn, k = par[id(cur)]
+            if pn["t"] == "If" and k == "then" and path_name(strip_paren(pn["cond"])) in ("LIMITED", "limited"):
+                return True
+            if pn["t"] == "If" and k == "then" and strip_paren(pn["cond"])["t"] == "Binary" and strip_paren(pn["cond"])["op"] == "&&":
+                c_ = strip_paren(pn["cond"])
+                conj = []
+                while c_["t"] == "Binary" and c_["op"] == "&&":
+                    conj.append(strip_paren(c_["right"]))
+                    c_ = strip_paren(c_["left"])
+                conj.append(c_)
+                if any(path_name(x) in ("LIMITED", "limited") for x in conj):
+                    return True
+            if pn["t"] == "If" and k == "else" and strip_paren(pn["cond"])["t"] == "Unary" and strip_paren(pn["cond"])["op"] == "!" \
+                    and path_name(strip_paren(strip_paren(pn["cond"])["expr"])) in ("LIMITED", "limited"):
+                return True
+            if pn["t"] == "Binary" and pn["op"] == "&&" and k == "right":
+                l_ = strip_paren(pn["left"])
+                conj = []
+                while l_["t"] == "Binary" and l_["op"] == "&&":
+                    conj.append(strip_paren(l_["right"]))
+                    l_ = strip_paren(l_["left"])
+                conj.append(l_)
+                if any(path_name(x) in ("LIMITED", "limited") for x in conj):
+                    return True
+            cur = pn
+        return False
+
+    def fn_only_called_under_gate(path, fname, depth=0):
+        """A helper that consults the budget is fine when every one of its call sites (there must be one) is gated."""
+        if depth > 2:
+            return False
+        sites = []
+        for fr in ast.find_fns(path):
+            if is_test_item(fr) or not fr["node"].get("body"):
+                continue
+            par_ = parents(fr["node"])
+            for c_ in walk_t(fr["node"]["body"], "Call"):
+                if path_name(strip_paren(c_["func"])).split("::")[-1] == fname:
+                    sites.append((fr, c_, par_))
+            for c_ in walk_t(fr["node"]["body"], "MethodCall"):
+                if c_["method"] == fname:
+                    sites.append((fr, c_, par_))
+            # a function mentioned by value (passed as a callback) cannot be followed
+            for p_ in walk_t(fr["node"]["body"], "PathExpr"):
+                if p_["path"]["name"].split("::")[-1] == fname and not any(strip_paren(c_[1].get("func", {})) is p_ for c_ in sites):
+                    return False
+        if not sites:
+            return False
+        return all(under_gate(c_, par_) or (fr["name"] != fname and fn_only_called_under_gate(path, fr["name"], depth + 1)) for fr, c_, par_ in sites)
+
     for path in files:
         for frec in ast.find_fns(path):
             if is_test_item(frec) or not frec["node"].get("body"):
                 continue
             par = parents(frec["node"])
+            helper_ok = None
             for fld in walk_t(frec["node"]["body"], "Field"):
                 if fld["member"] != "budget":
                     continue
                 n += 1
-                guarded = (path, frec["name"]) in allowed_fns
-                cur = fld
-                while not guarded and id(cur) in par:
-                    pn, k = par[id(cur)]
-                    if pn["t"] == "If" and k == "then" and path_name(strip_paren(pn["cond"])) in ("LIMITED", "limited"):
-                        guarded = True
-                    if pn["t"] == "Binary" and pn["op"] == "&&" and k == "right" and path_name(strip_paren(pn["left"])) in ("LIMITED", "limited"):
-                        guarded = True
-                    cur = pn
+                guarded = (path, frec["name"]) in allowed_fns or under_gate(fld, par)
+                if not guarded:
+                    if helper_ok is None:
+                        helper_ok = fn_only_called_under_gate(path, frec["name"])
+                    guarded = helper_ok
                 key = f"{path}|{frec['name']}|budget|{n}"
                 res.check(guarded, "LIM-GUARD", key if not guarded else f"{path}|{frec['name']}|budget-use|{n}", where(path, fld, frec["name"]),
                           f"{frec['name']}: the budget is consulted outside `if LIMITED`/`limited &&`: an unlimited run could stop on it")
